@@ -367,19 +367,15 @@ impl<'a> Parser<'a> {
     }
 
     fn parse_quantifier(&mut self) -> Result<CaptureQuantifier, ParseError> {
-        let mut quantifier = One;
-        if let Some(c) = self.try_peek() {
-            self.skip().unwrap();
-            if c == '?' {
-                quantifier = ZeroOrOne;
-            } else if c == '*' {
-                quantifier = ZeroOrMore;
-            } else if c == '+' {
-                quantifier = OneOrMore;
-            } else if !c.is_whitespace() {
-                return Err(ParseError::ExpectedQuantifier(self.location));
-            }
-        }
+        // only a quantifier character is consumed; anything else (whitespace, a comment, the `=` of a
+        // default value) is left for the caller
+        let quantifier = match self.try_peek() {
+            Some('?') => ZeroOrOne,
+            Some('*') => ZeroOrMore,
+            Some('+') => OneOrMore,
+            _ => return Ok(One),
+        };
+        self.skip().unwrap();
         Ok(quantifier)
     }
 
